@@ -98,6 +98,11 @@ func reorgScenario(c *pbt.C, id string, check func(c *pbt.C, key string, b, cn *
 			return
 		}
 		topX, topY := h.A.Height(), a2.Height()
+		realFork := forkAt
+		for realFork < topX && realFork < topY && sameAt(h.A, a2, realFork+1) {
+			realFork++
+		}
+		lenX = int(topX - realFork)
 		c.Note("fork at %d: X to %d, Y to %d", forkAt, topX, topY)
 		// B adopts X
 		if _, err := b.Bridge.InsertChain(h.A.Range(forkAt+1, topX)); err != nil {
